@@ -518,6 +518,7 @@ func (m *otMap) apply(proxy otProxy, plan *otShapePlan, font *Font, buffer *Buff
 				c.autoZWJ = lookup.autoZWJ
 				c.autoZWNJ = lookup.autoZWNJ
 				c.random = lookup.random
+				c.randomFlagged = false
 				c.perSyllable = lookup.perSyllable
 
 				// pathological cases
